@@ -42,7 +42,7 @@ def run_studio(ctx, seed):
     dedicated = rng.random() < 0.12
     desc = {'categories': cats, 'counts': counts, 'explicit': explicit, 'failing': sorted(failing), 'consumption': consumption, 'cassette': kind, 'dedicated': dedicated}
     w = dict(desc, seed=seed)
-    with open_box(kind, prefix=rng.choice(['', 'st'])) as box:
+    with open_box(kind, prefix=rng.choice(['', 'st', 'replays-metadata', 'team/Metadata', 'full'])) as box:     # prefixes spelling the layout's own words
         rec = TapeRecorder(box.cassette)
         rec.enable_recording()
         current = {}
@@ -78,6 +78,24 @@ def run_studio(ctx, seed):
         current['interrupt'] = False
         rec.tape_cassette = box.cassette
         rec.disable_recording()
+        if kind in ('memory', 'file') and rng.random() < 0.4:
+            # some recordings were made elsewhere and moved here keeping their ids (S3 style '<category>/<day>/<unique>')
+            import os
+            import uuid
+            from playback.recordings.memory.memory_recording import MemoryRecording
+            for c in cats:
+                for k, (rid, tok) in enumerate(list(saved[c])):
+                    if rng.random() < 0.5:
+                        src = box.cassette.get_recording(rid)
+                        new_id = u'%s/%s/%s' % (c, rng.choice(['20260101', '20251231']), uuid.uuid1().hex)
+                        box.cassette.save_recording(MemoryRecording(new_id, recording_data=dict(src.recording_data),
+                                                                    recording_metadata=dict(src.recording_metadata)))
+                        if kind == 'memory':
+                            del box.cassette._recordings[rid]
+                        else:
+                            os.remove(box.cassette._get_recording_file_path(rid))
+                        saved[c][k] = (new_id, tok)
+                        ctx.count('recordings_imported_with_foreign_style_id')
         tok_of = {rid: tok for c in cats for rid, tok in saved[c] + incomplete[c]}
 
         state = {'journal': [], 'failing': set(failing)}
